@@ -150,6 +150,7 @@ func runLimiterBoundConcurrent(o *Outcome, sc *LimScn) {
 		ev LimEv
 		ok bool
 	}
+	phase0 := simrt.Now()
 	done := make(chan []res, len(sc.Threads))
 	for ti, th := range sc.Threads {
 		ti, th := ti, th
@@ -173,6 +174,11 @@ func runLimiterBoundConcurrent(o *Outcome, sc *LimScn) {
 		all = append(all, simrt.Recv("lim.wait", done)...)
 	}
 	o.NonTrivial = len(all) >= 3 && len(sc.Threads) >= 2
+	// the scheduler may hold a caller back for microseconds to milliseconds after an unlock, so the "instant"
+	// has a (small) duration: each limit may admit burst + rate x that duration
+	el := (simrt.Now() - phase0).Seconds()
+	allow := func(burst int, rate float64) int { return int(float64(burst) + rate*el + 1e-9) }
+	opRate := map[string]float64{"read_large": float64(cfg.ReadLarge), "write_large": float64(cfg.WriteLarge), "readdir": float64(cfg.Readdir), "mount": float64(cfg.MountPerM) / 60.0}
 	perIP, perConn, perOp := map[int]int{}, map[int]int{}, map[string]int{}
 	global := 0
 	for _, r := range all {
@@ -188,8 +194,8 @@ func runLimiterBoundConcurrent(o *Outcome, sc *LimScn) {
 		perConn[r.ev.Conn]++
 	}
 	o.Checks++
-	if global > cfg.Global {
-		o.Vio("C18.bound-exceeded", "level=global,concurrent", "%d requests admitted at one instant, the global limit allows %d", global, cfg.Global)
+	if global > allow(cfg.Global, float64(cfg.Global)) {
+		o.Vio("C18.bound-exceeded", "level=global,concurrent", "%d requests admitted at one instant, the global limit allows %d", global, allow(cfg.Global, float64(cfg.Global)))
 	}
 	var ks []int
 	for ip := range perIP {
@@ -197,7 +203,7 @@ func runLimiterBoundConcurrent(o *Outcome, sc *LimScn) {
 	}
 	sort.Ints(ks)
 	for _, ip := range ks {
-		if perIP[ip] > cfg.PerIPBurst {
+		if perIP[ip] > allow(cfg.PerIPBurst, float64(cfg.PerIP)) {
 			o.Vio("C18.bound-exceeded", "level=per-ip,concurrent", "address 10.0.0.%d: %d requests admitted at one instant by concurrent callers, per-address burst is %d", ip, perIP[ip], cfg.PerIPBurst)
 		}
 	}
@@ -208,7 +214,7 @@ func runLimiterBoundConcurrent(o *Outcome, sc *LimScn) {
 		}
 		sort.Ints(ks)
 		for _, c := range ks {
-			if perConn[c] > cfg.ConnBurst {
+			if perConn[c] > allow(cfg.ConnBurst, float64(cfg.PerConn)) {
 				o.Vio("C18.bound-exceeded", "level=per-conn,concurrent", "connection conn-%d: %d requests admitted at one instant by concurrent callers, per-connection burst is %d", c, perConn[c], cfg.ConnBurst)
 			}
 		}
@@ -220,7 +226,7 @@ func runLimiterBoundConcurrent(o *Outcome, sc *LimScn) {
 	sort.Strings(oks)
 	for _, k := range oks {
 		op := k[strings.Index(k, "/")+1:]
-		if perOp[k] > opBurst(op) {
+		if perOp[k] > allow(opBurst(op), opRate[op]) {
 			o.Vio("C18.bound-exceeded", "level=op:"+op+",concurrent", "%s: %d operations admitted at one instant by concurrent callers, burst is %d", k, perOp[k], opBurst(op))
 		}
 	}
